@@ -25,6 +25,11 @@ def trait_impls(run, F, tag):
             continue
         if (tr, st) in ALLOWED_MANUAL:
             continue
+        if tr == "std::cmp::PartialOrd":
+            from .tables import catinfo, level_order
+            cat = catinfo(F)
+            if cat is not None and i["self_ty"] == cat["path"] and level_order(F, cat) is not None:
+                continue      # the category order written as a comparison of integer levels: read by category_order()
         if tr in MUST_BE_DERIVED:
             run.ob(False, "manual-impl|%s|%s" % (tr.split("::")[-1], i["self_ty"]), "%s premise: Clone / PartialEq / PartialOrd / Debug of the crate's types are the compiler-derived structural impls (the rules read `.clone()` and `==` as such)" % tag,
                    "%s:%s" % (i["file"], i["span"][0]), "hand-written `impl %s for %s`" % (tr, i["self_ty"]))
